@@ -247,7 +247,9 @@ def c01(tier, repo=None):
         return sum(1 for ln in obs if ln.startswith('{"ev":"exec"')) >= 2 or _has(obs, "branch")
     if tier == "quick":
         fams = [("p3", consts("pregel", 3, 3, 1, 2, maxchoice=(3,)), {}),
-                ("p2m", consts("pregel", 2, 3, 1, 1, multi=True, maxchoice=(0, 2), ends=3), {})]
+                ("p2m", consts("pregel", 2, 3, 1, 1, multi=True, maxchoice=(0, 2), ends=3), {}),
+                # two branches (also on the same node) with fan-out edges: sampled, the exhaustive family has 225 k scenarios
+                ("p3bb", consts("pregel", 3, 3, 2, 1, multi=True, maxchoice=(4,), ends=3), {"simulate": "num=40000", "depth": 16, "seed": vlib.SEED, "workers": 1})]
         models = ["MC_EinoRun_pregel2.cfg"]
     else:
         fams = [("p3", consts("pregel", 3, 4, 1, 2, maxchoice=(4,)), {"timeout": 1800}),
